@@ -15,6 +15,7 @@ EXPLANATION = (
     "dominated by the KeyValue arm, !value.is_empty() and key == removeparam; Some(..) is returned "
     "only if a parameter was removed; (4) apply_removeparam is called only when the result is not "
     "important; (5) the removeparam list is never optimised (C05.3) and is probed in full."
+    ' Round 6: apply_removeparam answers None only where no `?` precedes the fragment or the rewrite flag is false.'
 )
 NOT_DECIDED = "Byte-exact preservation on concrete URLs (value level); which removeparam rules match (C01-C03)."
 
@@ -274,6 +275,32 @@ def rule_removal(run, F, cfg):
     run.ob("C14.3.removal-condition", "some-iff-rewrite-flag", ok_sw,
            "the single Some(new_url) is built on the `rewrite == true` side of the single test of that flag and is "
            "unreachable from the false side", config=cfg)
+    # ... and the only ways to report "no rewrite": no `?` before the fragment, or nothing was removed
+    nones = [b for b, i, st in f.statements() if st["k"] == "assign" and st["pl"]["l"] == 0 and not st["pl"]["p"]
+             and st["rv"]["k"] == "agg" and st["rv"].get("adt") == "std::option::Option" and st["rv"].get("variant") == "None"]
+    qsw = [(b, f.blocks[b]["t"]) for b in sorted(f.normal_blocks()) if f.blocks[b]["t"]["k"] == "switch"
+           and re.match(r"^discr\(memchr::memchr\(63, ", f.expr_operand(f.blocks[b]["t"]["discr"]))]
+    ok_n = len(sw) == 1 and len(qsw) == 1 and bool(nones)
+    stray = []
+    if ok_n:
+        t = sw[0][1]
+        rw_false = [tb for v, tb in t["targets"] if v == 0]
+        qt = qsw[0][1]
+        found = [tb for v, tb in qt["targets"] if v == 1]
+        not_found = [tb for v, tb in qt["targets"] if v != 1] + ([qt["otherwise"]] if qt.get("otherwise") is not None else [])
+        not_found = [x for x in not_found if x not in found and not f.blocks[x].get("cleanup")
+                     and f.blocks[x]["t"]["k"] != "unreachable"]
+        for nb in nones:
+            if any(x == nb or f.dominates(x, nb) for x in rw_false + not_found):
+                continue
+            stray.append(f.loc(nb))
+        ok_n = not stray and len(rw_false) == 1
+    run.ob("C14.3.removal-condition", "none-only-without-query-or-removal", ok_n,
+           f"apply_removeparam answers None ({len(nones)} sites) only where no `?` precedes the fragment or where the "
+           f"`rewrite` flag is false after all matching rules were applied; other None exits: {stray}",
+           site=stray[0] if stray else f.loc(0), config=cfg,
+           detail="an additional early `return None` (a length / shape shortcut on the query string) suppresses "
+                  "rewrites for the inputs it misjudges")
     keep = [c.expr_local(0) for c in cls if c.name.endswith("{closure#3}")]
     nots = [1 for c in cls if c.name.endswith("{closure#3}") for b, i, st in c.statements()
             if st["k"] == "assign" and st["rv"]["k"] == "unop"]
